@@ -1,6 +1,7 @@
 """The properties' own oracles, run on the IMPLEMENTATION only.  Used (a) to search for a concrete failing input
 once a proof obligation or the correspondence has broken, (b) to replay the witnesses of known_findings.json."""
 import math
+import numpy as np
 import torch
 from torch import nn
 from . import registry as R, splines as S
@@ -23,7 +24,30 @@ def extra_entries():
         add('ActNorm/%d' % f, lambda f=f: _init_actnorm(T.ActNorm(f), [f]), [f])
         add('BatchNorm/%d' % f, lambda f=f: _init_batchnorm(T.BatchNorm(f), f), [f])
     add('ActNorm/img', lambda: _init_actnorm(T.ActNorm(2), [2, 2, 3]), [2, 2, 3])
+    add('ActNormFresh/3', lambda: T.ActNorm(3), [3])          # never initialised: evaluation mode must not initialise it
+    add('BatchNormFresh/3', lambda: T.BatchNorm(3), [3], extra={'tol': 1e-4})
     add('OneByOneConvolution', lambda: T.OneByOneConvolution(3, identity_init=False), [3, 2, 2])
+    def big(cls, f, scale, **kw):
+        def build():
+            t = cls(f, **kw)
+            with torch.no_grad():
+                if hasattr(t, '_weight'):
+                    q, _ = torch.linalg.qr(torch.randn(f, f))
+                    t._weight.copy_(scale * q)
+                elif hasattr(t, 'unconstrained_upper_diag'):
+                    t.unconstrained_upper_diag.fill_(float(np.log(np.expm1(scale))))
+                elif hasattr(t, 'log_upper_diag'):
+                    t.log_upper_diag.fill_(float(np.log(scale)))
+                elif hasattr(t, 'unconstrained_diagonal'):
+                    t.unconstrained_diagonal.fill_(float(np.log(np.expm1(scale))))
+            return t
+        return build
+    for f in (80, 96):
+        for scale in (0.25, 4.0):
+            add('NaiveLinearBig/%d/%g' % (f, scale), big(T.NaiveLinear, f, scale), [f], extra={'big': True})
+            add('LULinearBig/%d/%g' % (f, scale), big(T.LULinear, f, scale), [f], extra={'big': True})
+            add('QRLinearBig/%d/%g' % (f, scale), big(T.QRLinear, f, scale, num_householder=4), [f], extra={'big': True})
+            add('SVDLinearBig/%d/%g' % (f, scale), big(T.SVDLinear, f, scale, num_householder=4), [f], extra={'big': True})
     add('Squeeze2', lambda: T.SqueezeTransform(2), [1, 4, 2], extra={'inv_shape': [4, 2, 1]})
     add('Squeeze3', lambda: T.SqueezeTransform(3), [2, 3, 6], extra={'inv_shape': [18, 1, 2]})
     add('GLU', lambda: T.GatedLinearUnit(), [3], ctx=1)
@@ -263,7 +287,19 @@ def _F17():
     return k2 != 'ok' or bool((xi - x).abs().max() > 1e-12)
 
 
-REPLAYS = {'F1-linear': _F1('lin'), 'F1-quadratic': _F1('quad'), 'F1-cubic': _F1('cubic'), 'F2': _F2, 'F3': _F3, 'F4': _F4,
+def _F24():
+    from nflows.transforms.splines import cubic
+    p = torch.tensor([-4.299658298492432, 9.492609977722168, 7.090306282043457, 11.4033784866333, -2.6588692665100098,
+                      3.665842056274414, 0.12750910222530365, -7.90150260925293])
+    K = 3
+    uw = (p[:K] / math.sqrt(8))[None]; uh = (p[K:2 * K] / math.sqrt(8))[None]; dl = p[2 * K][None, None]; dr = p[2 * K + 1][None, None]
+    y = torch.tensor([2.5])
+    x32, l32 = cubic.unconstrained_cubic_spline(y, uw, uh, dl, dr, inverse=True, tail_bound=2.5)
+    x64, l64 = cubic.unconstrained_cubic_spline(y.double(), uw.double(), uh.double(), dl.double(), dr.double(), inverse=True, tail_bound=2.5)
+    return not (torch.isfinite(l32).all() and abs(x32.item() - x64.item()) < 1e-2)
+
+
+REPLAYS = {'F24': _F24, 'F1-linear': _F1('lin'), 'F1-quadratic': _F1('quad'), 'F1-cubic': _F1('cubic'), 'F2': _F2, 'F3': _F3, 'F4': _F4,
            'F6': _F6, 'F9': _F9, 'F12': _F12, 'F13': _F13, 'F16': _F16, 'F17': _F17}
 
 
